@@ -13,6 +13,8 @@ def register(add, parse, find_func, const_int, rat_of, ShapeError, module_assign
 
     def dec_text(node):
         # Decimal("...") with a string literal -> its text
+        from gen_common import resolve
+        node = resolve(node)
         if isinstance(node, ast.Call) and getattr(node.func, "id", None) == "Decimal" and len(node.args) == 1 \
                 and isinstance(node.args[0], ast.Constant) and isinstance(node.args[0].value, str):
             return node.args[0].value
